@@ -65,6 +65,14 @@ add("C17", "fault_enumeration",
     "In-memory: every failing call of the Binary readers/ReadMessageBegin/Skip met on all grammar-alphabet strings, all version halves, prefixes/perturbations and deep chains is classified by an independent reference into truncated / unknown type / negative size / bad version / depth and the protocol-exception type id must be admissible. Stream: every BufferReader method on streams cut at EVERY byte position x 4 terminal error values (incl. a wrapped sentinel) x end style x chunk policy: the failure must match the source's error under errors.Is; pooled readers are deliberately reused across cases so stale state would show.",
     EX_NOTE, "exhaustive fault enumeration (every cut position x every injected error value) plus bounded-exhaustive malformed-input enumeration with an independent cause classifier", "E6+E1", "5/C17")
 
+TTH_NOTE = COMMON_NOTE + "The reference is an independent TTHeader frame builder/decoder/layout checker (ref/tth.go) written from the documented layout with 32-bit arithmetic. "
+add("C06", "exploration",
+    "Whole-domain sweeps (all 65536 flag words, all 256 protocol ids, every single-bit sequence id) and the exhaustive product of string-keyed x int-keyed info maps with <= 2/3 entries over key/value alphabets chosen so that every padding residue and section combination occurs, plus a sweep of the header-info size across the 65536 limit (65500..65545) for four section shapes; three writers x three readers (stream-backed under fragmentation) x payload lengths; the produced bytes are checked against the layout and the decode results against the parameters, HeaderLen == bytes written == bytes consumed, PayloadLen == total+4-HeaderLen.",
+    TTH_NOTE, "whole-domain sweeps + bounded-exhaustive parameter products against an independent layout checker", "E6", "5/C06")
+add("C10", "exploration",
+    "Whole-domain sweeps of every header field that drives the decoder's arithmetic (all 65536 size-field values x available lengths, all flag words, all magic half-words, all protocol ids x transform counts, all info ids), all header-info regions over small alphabets up to 4^10/8^6 (thorough 8^7, 5^10), all sequences of <= 3 sections with repeats/padding/repeated keys, and every truncation / byte perturbation of each valid frame, bytes- and stream-backed; accept/reject, HeaderLen, PayloadLen, maps and bytes consumed compared with the independent reference decoder.",
+    TTH_NOTE, "whole-domain sweeps + bounded-exhaustive hostile-frame enumeration against an independent reference decoder", "E6", "5/C10")
+
 NOT_YET = {}
 
 def main():
